@@ -779,6 +779,11 @@ func (m *Model) Apply(msg sdk.Msg, bt time.Time) (ApplyResult, error) {
 		if !sameAddr(d.Owner, t.Updater) {
 			return res, rej("not the denom owner")
 		}
+		if d.Owner != t.Updater {
+			// the same account written differently (upper-case bech32): whether spellings are told apart is left open
+			res.Unjudged, res.Why = true, "owner and actor are the same address in different spellings"
+			return res, nil
+		}
 		// which fields change is an implementation choice ("empty means keep"): mirrored by the caller
 	case *pnfttypes.MsgDeleteDenomRequest:
 		d := m.Denoms[t.Id]
@@ -787,6 +792,11 @@ func (m *Model) Apply(msg sdk.Msg, bt time.Time) (ApplyResult, error) {
 		}
 		if !sameAddr(d.Owner, t.Remover) {
 			return res, rej("not the denom owner")
+		}
+		if d.Owner != t.Remover {
+			// the same account written differently (upper-case bech32): whether spellings are told apart is left open
+			res.Unjudged, res.Why = true, "owner and actor are the same address in different spellings"
+			return res, nil
 		}
 		if len(m.Tokens[t.Id]) > 0 {
 			res.AltDeleted = true // either refuse, or delete the denom together with its tokens
@@ -801,6 +811,11 @@ func (m *Model) Apply(msg sdk.Msg, bt time.Time) (ApplyResult, error) {
 		if !sameAddr(d.Owner, t.Sender) {
 			return res, rej("not the denom owner")
 		}
+		if d.Owner != t.Sender {
+			// the same account written differently (upper-case bech32): whether spellings are told apart is left open
+			res.Unjudged, res.Why = true, "owner and actor are the same address in different spellings"
+			return res, nil
+		}
 		d.Owner = t.Receiver
 	case *pnfttypes.MsgMintPNFTRequest:
 		d := m.Denoms[t.DenomId]
@@ -809,6 +824,11 @@ func (m *Model) Apply(msg sdk.Msg, bt time.Time) (ApplyResult, error) {
 		}
 		if !sameAddr(d.Owner, t.Creator) {
 			return res, rej("not the denom owner")
+		}
+		if d.Owner != t.Creator {
+			// the same account written differently (upper-case bech32): whether spellings are told apart is left open
+			res.Unjudged, res.Why = true, "owner and actor are the same address in different spellings"
+			return res, nil
 		}
 		if m.Tokens[t.DenomId][t.Id] != nil {
 			return res, rej("token exists")
